@@ -249,6 +249,7 @@ func c04StaticDiff(spec *refcodec.Spec) []staticCase {
 		accepted[o] = true
 	}
 	seen := map[string]bool{}
+	opaque := map[string]bool{}
 	for i := range spec.Messages {
 		sm := &spec.Messages[i]
 		seen[sm.Name] = true
@@ -257,10 +258,21 @@ func c04StaticDiff(spec *refcodec.Spec) []staticCase {
 			out = append(out, staticCase{Msg: sm.Name, What: "message has no generated codec"})
 			continue
 		}
+		// a codec function that does not have the generator's shape (a delegating wrapper, a re-written loop) is not
+		// understood by the extractor: what it then reports about guards and expressions of that message says nothing
+		// about behaviour. Such messages are left to the dynamic half entirely (their differences are listed, not asserted).
+		notUnderstood := false
 		for _, o := range cm.Oddities {
 			if !accepted[o] {
-				out = append(out, staticCase{Msg: sm.Name, What: "unexpected code shape: " + o, Shape: !strings.Contains(o, "emission order") && !strings.Contains(o, "dispatch") && !strings.Contains(o, "has no case") && !strings.Contains(o, "identifier")})
+				shape := !strings.Contains(o, "emission order") && !strings.Contains(o, "dispatch") && !strings.Contains(o, "has no case") && !strings.Contains(o, "identifier")
+				out = append(out, staticCase{Msg: sm.Name, What: "unexpected code shape: " + o, Shape: shape})
+				if shape {
+					notUnderstood = true
+				}
 			}
+		}
+		if notUnderstood {
+			opaque[sm.Name] = true
 		}
 		if cm.Family != sm.Family || cm.MsgType != sm.MsgType {
 			out = append(out, staticCase{Msg: sm.Name, What: fmt.Sprintf("dispatched as %s/%d, table says %s/%d", cm.Family, cm.MsgType, sm.Family, sm.MsgType)})
@@ -337,6 +349,11 @@ func c04StaticDiff(spec *refcodec.Spec) []staticCase {
 	for i := range code.Msgs {
 		if !seen[code.Msgs[i].Name] {
 			out = append(out, staticCase{Msg: code.Msgs[i].Name, What: "generated codec without a table entry"})
+		}
+	}
+	for i := range out {
+		if opaque[out[i].Msg] && out[i].Slot != "" {
+			out[i].Shape = true
 		}
 	}
 	sort.Slice(out, func(i, j int) bool { return out[i].Msg+out[i].Slot+out[i].What < out[j].Msg+out[j].Slot+out[j].What })
